@@ -24,6 +24,8 @@ TECHNIQUE = ("symbolic execution of the real rotation helpers, frame conversions
              "variables of the executed path after the solver has matched them; nothing is assumed, a step that is not proved stops the script (undecided)")
 FLOAT_SEMANTICS = "Real-ideal (rounding outside the claim); calendar arithmetic exact Int/Real"
 ENCODED = [
+    "resonaate.physics.transforms.methods:razel2radec", "resonaate.physics.transforms.methods:radec2razel", "resonaate.physics.transforms.methods:eci2razel",
+    "resonaate.physics.transforms.methods:getSlantRangeVector",
     "resonaate.physics.maths:rot1", "resonaate.physics.maths:rot2", "resonaate.physics.maths:rot3", "resonaate.physics.maths:dotRot1",
     "resonaate.physics.maths:dotRot2", "resonaate.physics.maths:dotRot3", "resonaate.physics.maths:skewSymmetric", "resonaate.physics.maths:wrapAngle2Pi",
     "resonaate.physics.transforms.methods:sez2ecef", "resonaate.physics.transforms.methods:ecef2sez",
@@ -49,7 +51,8 @@ BOUNDS = {"angles": "all real angles", "vectors": "all real 3-/6-vectors (non-ze
                         "polar closed form 1e-9 km / cos(lat) <= 1e-18"}
 OUTSIDE = ["floating-point rounding everywhere (in doubles the real ecef2lla loses up to 0.25 m within about 1 m of the polar axis at GEO height and divides by an underflowed 0 on the axis itself)",
            "ecef2lla inside the ellipsoid scaled by 0.98 (deeper than about 127 km), in particular the D < 0 / arccos branch, which is proved unreachable in the region",
-           "spherical2cartesian / cartesian2spherical / razel2sez / sez2razel / razel2radec / radec2razel (DESIGN O6): the rate components of the round trip were not decided by nlsat; not claimed",
+           "spherical2cartesian / cartesian2spherical / razel2sez / sez2razel as formulas (DESIGN O6): the rate components of their round trips were not decided by nlsat; O6r takes 'each is a function and "
+           "the inverse of its partner' as a contract and decides the compositions razel2radec / radec2razel / eci2razel / getSlantRangeVector on top of it",
            "numerical content of the IAU-76 nutation series and EOP table values, EOP interpolation", "leap-second jumps (dut1/dAT are symbols; the UTC day is taken as 86400 s)",
            "the composition steps 'round trip + injectivity => two-sided inverse' and '=> mirror symmetry in z' are stated in LEVEL_NOTE, each ingredient is solver-decided, the two-line composition is not",
            "O7b/O7e observe the angle handed to rot3 inside getRotR (a recording wrapper around the real rot3); a getRotR that builds its matrix without rot3 makes these obligations report a harness error, not a violation"]
@@ -1649,6 +1652,122 @@ def _o8_class(cls):
     return o8_geodetic
 
 
+# ====================================================================================================================
+# O6r  razel <-> radec round trips as a composition of inverse pairs
+# ====================================================================================================================
+class _PairCuts:
+    """The conversions razel2radec / radec2razel / eci2razel / getSlantRangeVector are compositions of frame maps.  Each map is cut to an
+    uninterpreted function that is (a) a function - the same arguments give the same value - and (b) the inverse of its partner
+    (eci2ecef/ecef2eci at one date, sez2ecef/ecef2sez at one site, razel2sez/sez2razel, spherical2cartesian/cartesian2spherical).
+    Both facts are realised by memo tables keyed on provable (linear, z3-simplified) equality of the argument terms, so the round trip of
+    the real composition collapses to its input exactly when every map receives what its partner produced - full 6-component states."""
+
+    PAIRS = {"eci2ecef": "ecef2eci", "ecef2eci": "eci2ecef", "sez2ecef": "ecef2sez", "ecef2sez": "sez2ecef",
+             "razel2sez": "sez2razel", "sez2razel": "razel2sez", "spherical2cartesian": "cartesian2spherical", "cartesian2spherical": "spherical2cartesian"}
+
+    def __init__(self):
+        self.tab = {}   # name -> list of (main argument vector, side arguments, value vector)
+        self.n = 0
+
+    @staticmethod
+    def _vec(x):
+        return [v if isinstance(v, SReal) else SReal(v) for v in np.asarray(x, dtype=object).ravel()]
+
+    @staticmethod
+    def _same(a, b):
+        if len(a) != len(b):
+            return False
+        for x, y in zip(a, b):
+            d = z3.simplify(x.t - y.t)
+            if not (z3.is_rational_value(d) and d.numerator_as_long() == 0):
+                return False
+        return True
+
+    def _fresh(self, name, k):
+        self.n += 1
+        return [real(f"{name}{self.n}_{i}") for i in range(k)]
+
+    def call(self, name, main, side=(), k=6):
+        main, side = self._vec(main), tuple(side)
+        for m0, s0, v0 in self.tab.get(name, []):
+            if s0 == side and self._same(m0, main):
+                return v0
+        for m0, s0, v0 in self.tab.get(self.PAIRS.get(name, ""), []):
+            if s0 == side and self._same(v0, main):   # applied to what the partner produced: the partner's argument comes back
+                self.tab.setdefault(name, []).append((main, side, m0))
+                return m0
+        v = self._fresh(name, k)
+        self.tab.setdefault(name, []).append((main, side, v))
+        return v
+
+    def shadows(self):
+        arr = lambda v: np.array(v, dtype=object)  # noqa: E731
+        ids = {}
+
+        def sid(x):  # side arguments (date token, latitude/longitude symbols) compared by term identity
+            return ids.setdefault(str(x.t) if isinstance(x, SReal) else repr(x), len(ids))
+
+        return dict(
+            eci2ecef=lambda x, date, *a, **k: arr(self.call("eci2ecef", x, (sid(date),))),
+            ecef2eci=lambda x, date, *a, **k: arr(self.call("ecef2eci", x, (sid(date),))),
+            ecef2lla=lambda x: arr(self.call("ecef2lla", x, (), 3)),
+            sez2ecef=lambda x, lat, lon: arr(self.call("sez2ecef", x, (sid(lat), sid(lon)))),
+            ecef2sez=lambda x, lat, lon: arr(self.call("ecef2sez", x, (sid(lat), sid(lon)))),
+            razel2sez=lambda *q: arr(self.call("razel2sez", q)),
+            sez2razel=lambda x: tuple(self.call("sez2razel", x)),
+            spherical2cartesian=lambda *q: arr(self.call("spherical2cartesian", q)),
+            cartesian2spherical=lambda x: tuple(self.call("cartesian2spherical", x)),
+        )
+
+
+O6R_DATE = (2021, 3, 30, 16, 0, 7)
+O6R_OBSERVER = [6524.834, 6862.875, 6448.296, 4.901327, 5.533756, -1.976341]   # a spacecraft: it moves in the Earth-fixed frame
+O6R_Q = {"razel": [1200.0, 0.4, 2.2, 1.5, 1e-3, -2e-3], "radec": [1200.0, -0.3, 4.0, -0.7, 5e-4, 1e-3]}
+
+
+def replay_o6r(d):
+    """the real razel2radec / radec2razel at a date with Earth-orientation data, observer and topocentric coordinates from the candidate"""
+    from datetime import datetime
+
+    from resonaate.physics.transforms import methods as M
+
+    date = datetime(*O6R_DATE)
+    obs, q = np.array(d["observer_eci"], dtype=float), [float(v) for v in d["q"]]
+    if d["direction"] == "razel":
+        back = M.radec2razel(*M.razel2radec(*q, obs, date), obs, date)
+    else:
+        back = M.razel2radec(*M.radec2razel(*q, obs, date), obs, date)
+    back = [float(v) for v in back]
+    err = [abs(a - b) / max(1.0, abs(b)) if i in (0, 3) else min(abs(a - b), abs(abs(a - b) - 2 * math.pi)) for i, (a, b) in enumerate(zip(back, q))]
+    return max(err) > 1e-7, {"input": q, "after_round_trip": back, "errors (relative for range and range rate, absolute for angles and angle rates)": err}
+
+
+def o6r_roundtrips(rep):
+    from resonaate.physics.transforms import methods as M
+
+    for direction in ("razel", "radec"):
+        with single_path() as p:
+            cuts = _PairCuts()
+            q, obs = reals(f"q{direction}", 6), reals("obs", 6)
+            date = object()
+            with shadow(M, **cuts.shadows()):
+                if direction == "razel":
+                    back = M.radec2razel(*M.razel2radec(*q, obs, date), obs, date)
+                else:
+                    back = M.razel2radec(*M.radec2razel(*q, obs, date), obs, date)
+            back = _PairCuts._vec(list(back))
+            # partial concretisation of the inputs (the verdict of the cut-level query does not depend on them): a moving observer
+            pins = [obs[i].t == rv(O6R_OBSERVER[i]) for i in range(6)] + [q[i].t == rv(O6R_Q[direction][i]) for i in range(6)]
+            inputs = lambda m, q=q, obs=obs, direction=direction: {"direction": direction, "q": [mfloat(m, v.t) for v in q], "observer_eci": [mfloat(m, v.t) for v in obs]}  # noqa: E731
+            goal = z3.And(z3.BoolVal(len(back) == 6), *[a.t == b.t for a, b in zip(back, q)])
+            rep.prove(f"{direction}-roundtrip", goal, p.constraints() + pins, inputs=inputs, replay=replay_o6r,
+                      sample=f"{'radec2razel(razel2radec(q))' if direction == 'razel' else 'razel2radec(radec2razel(q))'} = q for every 6-component q and observer state, given that "
+                             "each frame map is a function and the inverse of its partner (all six components, moving observer included)")
+            rep.note(f"{direction}: cut calls " + ", ".join(f"{k}x{len(v)}" for k, v in sorted(cuts.tab.items())))
+            rep.reachable(f"{direction}-inputs", p.constraints() + pins)
+
+
+
 REPLAYS = {"O1": replay_rot, "O2": replay_skew, "O3": replay_sez, "O4a": replay_fk5, "O4b": replay_eci}
 
 
@@ -1666,6 +1785,8 @@ def obligations(tier):
         Ob("O4a", o4a_fk5, "real ReductionParams.build on symbolic angles: W, PN, PNR orthogonal; transposes", 400),
         Ob("O4b", o4b_eci, "ECI <-> ECEF mutual inverses on 6-states, rigid (orthogonal-matrix cut)", 400),
     ]
+    obs.append(Ob("O6r", o6r_roundtrips, "razel2radec / radec2razel round trips as compositions of inverse pairs (every frame map cut to a function with its partner as inverse)", 120))
+    REPLAYS["O6r"] = replay_o6r
     obs.append(Ob("O5", o5_rsw, "RSW / NTW: rotation orthonormal, right-handed, axes along radius / velocity / orbit normal; eci2rsw and rsw2eci mutual inverses", 600))
     REPLAYS["O5"] = replay_rsw
     thorough = tier == "thorough"
